@@ -95,7 +95,8 @@ EndClose(c) ==
   /\ UNCHANGED <<parent, res, fac, ending, regs>>
   /\ obs' = [a |-> "EndClose", c |-> c, how |-> ending[c], tdrun |-> Rev(td[c]), ev |-> <<>>,
              r |-> IF \E i \in DOMAIN td[c] : td[c][i][1] = "raises" THEN "TeardownGroup"
-                   ELSE IF OpenKids(c) # {} THEN "StackCorruption"
+                   \* a block that already ends with an exception or cancellation may report either that or the open child
+                   ELSE IF OpenKids(c) # {} THEN (IF ending[c] = "return" THEN "StackCorruption" ELSE "StackCorruptionOrOwn")
                    ELSE ending[c]]
 
 (* Every operation is written as a state function XxxO(args) giving its observable outcome in the current state, and an
